@@ -508,14 +508,6 @@ def run_scenario(impl, sc, scratch, tag):
         _, gi, fmt, use_encode_as = act
         gd = sc["grids"][gi]
         o = {"action": ai, "grid": gi, "fmt": fmt, "encode_as": bool(use_encode_as), "source": gd["source"]}
-        if fmt == "scrip":
-            # the dispatch evaluates self.node_lon / self.node_lat (deriving them from xyz when absent)
-            # before _encode_scrip runs: the dataset the encoder sees is the one after that
-            try:
-                g.node_lon
-                g.node_lat
-            except Exception:
-                pass
         ds_before = g._ds
         o["snap"] = snapshot(ds_before)
         o["tmpl_before"] = {k: v for k, v in impl.ug.BASE_GRID_TOPOLOGY_ATTRS.items()}
@@ -545,6 +537,12 @@ def run_scenario(impl, sc, scratch, tag):
             o["encode_exc"] = type(e).__name__
             o["encode_msg"] = str(e)[:200]
         o["tmpl_after"] = {k: v for k, v in impl.ug.BASE_GRID_TOPOLOGY_ATTRS.items()}
+        if "node_lon" not in names and "node_lon" in g._ds.variables and "node_lat" in g._ds.variables:
+            # the dispatch derived node_lon/node_lat from xyz before the encoder ran (it does so for SCRIP:
+            # self.node_lon is an argument): the dataset the encoder saw is the grid's dataset after that
+            # step, without the topology variable the encoder itself may have stored in it
+            o["snap"] = [v for v in snapshot(g._ds) if v["name"] != "grid_topology" or "grid_topology" in names]
+            o["lonlat_derived_by_dispatch"] = True
         if fmt == "scrip":
             try:
                 o["areas_ok"] = bool(np.all(np.asarray(g.face_areas.values) != 0))
@@ -669,20 +667,21 @@ def spec_check(ck, sc, o, label):
 # ---------------------------------------------------------------------------------------------
 # model side
 
-VARIANTS = {"faithful": [1, -1, 0, 1, 0, 0], "repaired": [1, FILL, 1, 1, 1, 1]}
+VARIANTS = {"faithful": [1, -1, 0, 1, 0, 0, 0], "repaired": [1, FILL, 1, 1, 1, 1, 1]}
 
 
 def all_variants():
     out = [("faithful", VARIANTS["faithful"]), ("repaired", VARIANTS["repaired"])]
     for c in (1, 0):
-        for h in (0, 1):
-            for f, a in ((-1, 0), (FILL, 1)):
-                for d in (1, 0):
-                    for r in (0, 1):
-                        v = [c, f, a, d, r, h]
-                        if v not in (VARIANTS["faithful"], VARIANTS["repaired"]):
-                            out.append(("copy=%d fill=%s acc=%d deg2rad=%d readall=%d striphelpers=%d"
-                                        % (c, "F" if f == FILL else f, a, d, r, h), v))
+        for p in (0, 1):
+            for h in (0, 1):
+                for f, a in ((-1, 0), (FILL, 1)):
+                    for d in (1, 0):
+                        for r in (0, 1):
+                            v = [c, f, a, d, r, h, p]
+                            if v not in (VARIANTS["faithful"], VARIANTS["repaired"]):
+                                out.append(("copy=%d fill=%s acc=%d deg2rad=%d readall=%d striphelpers=%d scrippad=%d"
+                                            % (c, "F" if f == FILL else f, a, d, r, h, p), v))
     return out
 
 
